@@ -322,7 +322,11 @@ tx_outs:\n{tx_outs}
         # start with version: int_to_little_endian in 4 bytes
         s = int_to_little_endian(self.version, 4)
         # next, how many inputs there are: encode_varint
-        s += encode_varint(len(self.tx_ins))
+        # (only the input being signed is serialized with SIGHASH_ANYONECANPAY)
+        if hash_type & SIGHASH_ANYONECANPAY:
+            s += encode_varint(1)
+        else:
+            s += encode_varint(len(self.tx_ins))
         # loop through each input: for i, tx_in in enumerate(self.tx_ins)
         for i, tx_in in enumerate(self.tx_ins):
             sequence = tx_in.sequence
@@ -354,7 +358,13 @@ tx_outs:\n{tx_outs}
             else:
                 s += new_tx_in.serialize()
         # add how many outputs there are using encode_varint
-        s += encode_varint(len(self.tx_outs))
+        # (none with SIGHASH_NONE, up to and including input_index with SIGHASH_SINGLE)
+        if hash_type & 3 == SIGHASH_NONE:
+            s += encode_varint(0)
+        elif hash_type & 3 == SIGHASH_SINGLE:
+            s += encode_varint(input_index + 1)
+        else:
+            s += encode_varint(len(self.tx_outs))
         # add the serialization of each output
         for i, tx_out in enumerate(self.tx_outs):
             if hash_type & 3 == SIGHASH_NONE:
